@@ -282,6 +282,40 @@ func inferPatterns(q Quant) [][]*sx.T {
 	return pats
 }
 
+// maxGen bounds how often instantiation may build on terms that instantiation itself created.
+const maxGen = 2
+
+// redundantNest reports terms of the shape snapN_key(snapN_idx(...)) / snapN_idx(snapN_key(...)):
+// the snapshot axioms make them equal to their argument, so matching on them only feeds a matching loop.
+func redundantNest(t *sx.T) bool {
+	h := t.Head()
+	if len(t.L) == 2 && strings.HasPrefix(h, "snap") {
+		ih := t.L[1].Head()
+		if strings.HasSuffix(h, "_key") && strings.HasSuffix(ih, "_idx") && strings.TrimSuffix(h, "_key") == strings.TrimSuffix(ih, "_idx") {
+			return true
+		}
+		if strings.HasSuffix(h, "_idx") && strings.HasSuffix(ih, "_key") && strings.TrimSuffix(h, "_idx") == strings.TrimSuffix(ih, "_key") {
+			return true
+		}
+	}
+	return false
+}
+
+func containsRedundantNest(t *sx.T) bool {
+	found := false
+	sx.Walk(t, func(s *sx.T) bool {
+		if found {
+			return false
+		}
+		if redundantNest(s) {
+			found = true
+			return false
+		}
+		return true
+	})
+	return found
+}
+
 // Instantiate performs the ground stage instantiation.
 func instantiate(qs []Quant, ground []*sx.T, rounds, maxInst int) []*sx.T {
 	defs := map[string]*sx.T{}
@@ -320,23 +354,36 @@ func instantiate(qs []Quant, ground []*sx.T, rounds, maxInst int) []*sx.T {
 			qs[i].Pats = inferPatterns(qs[i])
 		}
 	}
+	// generation of every ground term: 0 for the terms of the query, g+1 for terms first seen in an
+	// instance built from terms of generation <= g
+	gen := map[string]int{}
+	terms := map[string]*sx.T{}
+	addTerms := func(t *sx.T, g int) {
+		acc := map[string]*sx.T{}
+		groundSubterms(t, acc)
+		for k, v := range acc {
+			if _, ok := gen[k]; !ok {
+				gen[k] = g
+				terms[k] = v
+			}
+		}
+	}
+	for _, g := range ground {
+		addTerms(g, 0)
+	}
 	for r := 0; r < rounds; r++ {
-		terms := map[string]*sx.T{}
-		for _, g := range ground {
-			groundSubterms(g, terms)
-		}
-		for _, g := range insts {
-			groundSubterms(g, terms)
-		}
 		extra := map[string]*sx.T{}
-		for _, t := range terms {
+		for k, t := range terms {
 			if t.Head() == "select" && len(t.L) == 3 {
 				bs := map[string]*sx.T{}
 				bases(t.L[1], 0, bs)
 				for _, b := range bs {
 					if b.IsAtom() || (b.Head() != "store" && b.Head() != "ite") {
 						n := sx.App("select", b, t.L[2])
-						extra[n.String()] = n
+						if _, ok := gen[n.String()]; !ok {
+							extra[n.String()] = n
+							gen[n.String()] = gen[k]
+						}
 					}
 				}
 			}
@@ -345,24 +392,38 @@ func instantiate(qs []Quant, ground []*sx.T, rounds, maxInst int) []*sx.T {
 			terms[k] = v
 		}
 		keys := make([]string, 0, len(terms))
-		for k := range terms {
-			keys = append(keys, k)
+		for k, t := range terms {
+			if gen[k] <= maxGen && !containsRedundantNest(t) {
+				keys = append(keys, k)
+			}
 		}
 		sort.Strings(keys)
-		var fresh []*sx.T
+		type finst struct {
+			t *sx.T
+			g int
+		}
+		var fresh []finst
 		for _, q := range qs {
 			vars := map[string]bool{}
 			for _, v := range q.Vars {
 				vars[v.Name] = true
 			}
 			for _, pat := range q.Pats {
-				envs := []map[string]*sx.T{{}}
+				type menv struct {
+					env map[string]*sx.T
+					g   int
+				}
+				envs := []menv{{map[string]*sx.T{}, 0}}
 				for _, p := range pat {
-					var nxt []map[string]*sx.T
-					for _, env := range envs {
+					var nxt []menv
+					for _, me := range envs {
 						for _, k := range keys {
-							if e := match(p, terms[k], vars, env); e != nil {
-								nxt = append(nxt, e)
+							if e := match(p, terms[k], vars, me.env); e != nil {
+								g := me.g
+								if gen[k] > g {
+									g = gen[k]
+								}
+								nxt = append(nxt, menv{e, g})
 							}
 						}
 					}
@@ -371,14 +432,14 @@ func instantiate(qs []Quant, ground []*sx.T, rounds, maxInst int) []*sx.T {
 						envs = envs[:4000]
 					}
 				}
-				for _, env := range envs {
-					if len(env) != len(q.Vars) {
+				for _, me := range envs {
+					if len(me.env) != len(q.Vars) {
 						continue
 					}
-					inst := sx.Subst(q.Body, env)
+					inst := sx.Subst(q.Body, me.env)
 					if !seen[inst.String()] {
 						seen[inst.String()] = true
-						fresh = append(fresh, inst)
+						fresh = append(fresh, finst{inst, me.g + 1})
 					}
 				}
 			}
@@ -386,7 +447,10 @@ func instantiate(qs []Quant, ground []*sx.T, rounds, maxInst int) []*sx.T {
 		if len(fresh) == 0 {
 			break
 		}
-		insts = append(insts, fresh...)
+		for _, f := range fresh {
+			insts = append(insts, f.t)
+			addTerms(f.t, f.g)
+		}
 		if len(insts) > maxInst {
 			break
 		}
